@@ -480,9 +480,9 @@ class Driver:
             if c.disc_recorded:
                 continue
             evs = self.events
-            pos = e0
-            while pos < len(evs) and evs[pos].get("_seq", 0) < seq:
-                pos += 1
+            pos = len(evs)                   # right after the last operation submitted before it
+            while pos > e0 and evs[pos - 1].get("_seq", 0) > seq:
+                pos -= 1
             post = evs[pos - 1]["post"] if pos > 0 else self.snap()
             evs.insert(pos, {"op": "disconnect", "w": c.name, "_seq": seq, "post": post})
             c.disc_recorded = True
